@@ -66,4 +66,35 @@ AtomicAt(vis, c, lo, hi, vs, j) ==
                              ELSE \E f \in fs : ~Accepts(f, c)
 
 AtomicObs(vis, c, lo, hi, vs) == \E j \in lo..hi : AtomicAt(vis, c, lo, hi, vs, j)
+
+(* ------------------------------------------------------------------------ *)
+(* The WHOLE table.  Table.Dispatch runs a metric through the front end     *)
+(* (blacklist, rewriters, aggregators) and then through the routes; all     *)
+(* four lists are ONE configuration value.  "Every metric is processed      *)
+(* against the complete table as it was either before or after each change" *)
+(* is a statement about all lists together, not about each list on its own. *)
+(*   front end F = [bl, rw, agg], each a sequence of entries [id, f]:       *)
+(*     bl   entry with f = c > 0 drops every class-c metric (f = 0: inert,  *)
+(*          matches no metric of the harness)                               *)
+(*     rw   every entry rewrites the name (the name = ids applied, in order)*)
+(*     agg  a drop-raw aggregator with f = c > 0 consumes every class-c     *)
+(*          metric (f = 0: inert)                                           *)
+(*   outcome of one Dispatch: [fate, rw, rwobs, vis]                        *)
+(*     fate   "bl" dropped by the blacklist | "agg" consumed by an          *)
+(*            aggregator | "routed" handed to the route loop (vis = <<>>:   *)
+(*            unroutable)                                                   *)
+(*     rw     the rewriters that were applied (known iff rwobs: the name is *)
+(*            seen by whoever receives the metric)                          *)
+(*     vis    the entries of the main list it was delivered to              *)
+(* WholeAt: the outcome is the outcome under version j of the whole table   *)
+(* (fv[j] front end, mv[j] main list): ONE j for fate, name and routes.     *)
+Hits(s, c) == \E i \in 1..Len(s) : s[i].f # 0 /\ s[i].f = c
+FateOf(F, c) == IF Hits(F.bl, c) THEN "bl" ELSE IF Hits(F.agg, c) THEN "agg" ELSE "routed"
+
+WholeAt(out, c, lo, hi, mv, fv, j) ==
+  /\ out.fate = FateOf(fv[j], c)
+  /\ IF out.fate = "routed" THEN AtomicAt(out.vis, c, lo, hi, mv, j) ELSE out.vis = <<>>
+  /\ (out.rwobs => out.rw = Ids(fv[j].rw))
+
+WholeObs(out, c, lo, hi, mv, fv) == \E j \in lo..hi : WholeAt(out, c, lo, hi, mv, fv, j)
 =============================================================================
